@@ -7,7 +7,6 @@ import (
 	"fmt"
 	"os"
 	"path/filepath"
-	"sort"
 	"strings"
 	"sync"
 
@@ -659,7 +658,7 @@ func (d *driver) cacheCases(h *history) {
 	type variant struct {
 		name    string
 		content []byte // nil = no file
-		genuine bool
+		genuine bool // strict: the restart must behave exactly as without the file
 	}
 	last := versions[len(versions)-1]
 	vs := []variant{{"absent", nil, true}, {"current", last, true}}
@@ -679,21 +678,43 @@ func (d *driver) cacheCases(h *history) {
 		}
 	}
 	vs = append(vs, variant{"garbage", []byte("\x00\x01 not json"), true})
-	// tampered: sizes changed (fast path taken with wrong numbers) and index size zeroed (fallback)
-	var m map[string]map[string]any
-	if json.Unmarshal(last, &m) == nil && len(m) > 0 {
-		var names []string
-		for n := range m {
-			names = append(names, n)
+	// damaged but parsable entries. strict = the loader can tell the entry is unusable (no positive index size):
+	// everything must be as without the file. Entries with a positive index size and wrong other numbers are
+	// taken at face value by the fast path (agreement with the model only, see the report).
+	tamper := func(f func(e map[string]any) map[string]any) []byte {
+		var m map[string]map[string]any
+		if json.Unmarshal(last, &m) != nil || len(m) == 0 {
+			return nil
 		}
-		sort.Strings(names)
-		m[names[0]]["docs_on_disk"] = 123456
-		b1, _ := json.Marshal(m)
-		vs = append(vs, variant{"tampered-size", b1, false})
-		m[names[0]]["index_on_disk"] = 0
-		b2, _ := json.Marshal(m)
-		vs = append(vs, variant{"tampered-zero-index", b2, false})
+		for n, e := range m {
+			m[n] = f(e)
+		}
+		b, _ := json.Marshal(m)
+		return b
 	}
+	addT := func(name string, strict bool, f func(e map[string]any) map[string]any) {
+		if b := tamper(f); b != nil {
+			vs = append(vs, variant{name, b, strict})
+		}
+	}
+	addT("tampered-name-only", true, func(e map[string]any) map[string]any { return map[string]any{"name": e["name"]} })
+	addT("tampered-empty-entry", true, func(e map[string]any) map[string]any { return map[string]any{} })
+	addT("tampered-zero-index", true, func(e map[string]any) map[string]any { e["index_on_disk"] = 0; return e })
+	addT("tampered-no-index-field", true, func(e map[string]any) map[string]any { delete(e, "index_on_disk"); return e })
+	addT("tampered-zero-sizes", true, func(e map[string]any) map[string]any {
+		e["index_on_disk"], e["docs_on_disk"], e["meta_on_disk"] = 0, 0, 0
+		return e
+	})
+	addT("tampered-partial", true, func(e map[string]any) map[string]any {
+		return map[string]any{"name": e["name"], "ver": e["ver"], "docs_total": e["docs_total"]}
+	})
+	addT("tampered-zero-index-wrong-range", true, func(e map[string]any) map[string]any {
+		e["index_on_disk"], e["docs_total"], e["from"], e["to"] = 0, 0, 0, 0
+		return e
+	})
+	addT("tampered-null-entry", true, func(e map[string]any) map[string]any { return nil })
+	addT("trusted-wrong-size", false, func(e map[string]any) map[string]any { e["docs_on_disk"] = 123456; return e })
+	addT("trusted-wrong-range", false, func(e map[string]any) map[string]any { e["docs_total"], e["from"], e["to"] = 0, 0, 0; return e })
 	type res struct {
 		obs loadObs
 		err error
@@ -759,14 +780,9 @@ func (d *driver) cacheCases(h *history) {
 			impl[f.Name] = f
 		}
 		var items []string
-		servedAll := true
 		for _, n := range sealedNames {
 			hd := hdr[n]
-			im, ok := impl[n]
-			if !ok {
-				servedAll = false
-				continue
-			}
+			im := impl[n] // a sealed fraction that is not listed any more counts with an all-zero Info
 			ent := "None"
 			if e, ok := entries[n]; ok {
 				ent = "(Some " + infoCoq(e.DocsTotal, e.From, e.To, e.DocsOnDisk, e.IndexOnDisk, e.MetaOnDisk) + ")"
@@ -774,24 +790,23 @@ func (d *driver) cacheCases(h *history) {
 			items = append(items, fmt.Sprintf("mkcinfo %s %s %s", ent, infoCoq(hd.Docs, hd.From, hd.To, hd.DocsOD, hd.IdxOD, hd.MetaOD),
 				infoCoq(im.Docs, im.From, im.To, im.DocsOD, im.IdxOD, im.MetaOD)))
 		}
-		okDocs := true
-		for f, st := range r.obs.Stats {
-			st0 := results[0].obs.Stats[f]
-			if st0 != nil && (st.OK != st0.OK || st.Wrong != st0.Wrong) {
-				okDocs = false
-			}
+		// documents served by fetch AND search: baseline = restart without the file
+		var expected, okN, wrongN int
+		for _, st := range results[0].obs.Stats {
+			expected += st.OK
 		}
-		if !servedAll || !okDocs {
-			d.w.Violate("cache:served-set-differs", "restart with a "+v.name+" .frac-cache serves other fractions/documents than without the file",
-				map[string]any{"history": h.desc(), "variant": v.name, "content_hex": hex.EncodeToString(v.content)})
+		for _, st := range r.obs.Stats {
+			okN += st.OK
+			wrongN += st.Wrong
 		}
 		sum := sha1.Sum(v.content)
-		term := fmt.Sprintf("CCache %s [%s]", casefile.Bool(v.genuine), strings.Join(items, "; "))
+		term := fmt.Sprintf("CCache %s [%s] %d%%N %d%%N %d%%N", casefile.Bool(v.genuine), strings.Join(items, "; "), expected, okN, wrongN)
 		kind := v.name
 		if i := strings.IndexByte(kind, '-'); i > 0 && (strings.HasPrefix(kind, "truncated") || strings.HasPrefix(kind, "stale")) {
 			kind = kind[:i]
 		}
-		d.w.Add(term, "cache:"+kind, len(items) > 0 && v.content != nil, map[string]any{"history": h.ID, "sort_docs": h.Sorted, "variant": v.name, "content_sha1": hex.EncodeToString(sum[:6]), "entries": len(entries)},
-			map[string]any{"sealed_fractions": len(items)})
+		d.w.Add(term, "cache:"+kind, len(items) > 0 && v.content != nil, map[string]any{"history": h.desc(), "variant": v.name, "frac_cache_content": string(v.content), "frac_cache_present": v.content != nil,
+				"content_sha1": hex.EncodeToString(sum[:6]), "entries": len(entries)},
+			map[string]any{"fracs": r.obs.Fracs, "docs_expected": expected, "docs_served_by_fetch_and_search": okN, "docs_wrong_or_half_served": wrongN, "err": r.obs.Err})
 	}
 }
